@@ -35,6 +35,8 @@ FLOORS["quick"].update({'priorityitem_puts': 3000, 'same_object_put_again': 1000
 FLOORS["thorough"].update({'priorityitem_puts': 15000, 'same_object_put_again': 5000})
 FLOORS["quick"].update({'exact_amount_cases': 200, 'requests_kept_after_timeout': 2500})
 FLOORS["thorough"].update({'exact_amount_cases': 1000, 'requests_kept_after_timeout': 12500})
+FLOORS["quick"].update({'refused_amounts': 1000, 'with_exits_by_interrupt_on_granted': 300})
+FLOORS["thorough"].update({'refused_amounts': 5000, 'with_exits_by_interrupt_on_granted': 1500})
 GRID = [0, 0, 1, 1, 2, 3, 0.5]
 INF = float("inf")
 
